@@ -72,7 +72,7 @@ PROPS = {
     "C16": dict(
         module="Anonymongo.Props.C16",
         theorems=["Anonymongo.Atlas.C16_requests", "Anonymongo.Atlas.C16_outputs", "Anonymongo.Atlas.C16_window", "Anonymongo.Atlas.C16_hosts", "Anonymongo.Atlas.C17_no_leftovers",
-                  "Anonymongo.Facts_atlas_requests"],
+                  "Anonymongo.Facts_atlas_requests", "Anonymongo.Facts_footprint_atlas"],
         extra_modules=["Anonymongo.Props.SrcFacts"],
         corr=[],
         statement="over the trace model of Atlas mode, for EVERY number of hosts: when nothing fails the authenticated requests are the cluster lookup followed by exactly one log download per host in host order, and <outputFile>.<i> receives the redaction of host i's file for i = 0..n-1 in order, each once; without dates the window is (now - 7 days, now) with start < end, with dates it is what was given; hosts are the members of the connection string in order with ports stripped; REGENERATED facts (Facts_atlas_requests, kernel-decided): the two request templates of atlas.go (cluster description; host log with endDate / startDate), the literal request headers, the temporary-file pattern and the <outputFile>.<i> pattern are exactly the expected ones and the repository sets no other header",
@@ -216,7 +216,24 @@ STATE_NOTE = ("; STATE: the model is a pure function of (line, flags) - tied to 
 for _p in PURE_MODEL_PROPS:
     _s = PROPS[_p]
     _s["theorems"] = _s["theorems"] + [t for t in STATE_FACTS if t not in _s["theorems"]]
-    _s["extra_modules"] = _s.get("extra_modules", []) + [m for m in ["Anonymongo.Props.SrcFacts"] if m not in _s.get("extra_modules", [])]
     if "session" not in _s["corr"]:
         _s["corr"] = _s["corr"] + ["session"]
     _s["statement"] = _s.get("statement", "") + STATE_NOTE
+
+# ---- one module per source-fact obligation (Props/Facts/*): a property depends on exactly the fact modules whose
+# theorems it lists, so a fact that stops checking affects only the properties that rest on it
+FACT_MODULES = {
+    "Anonymongo.Facts_dispatch": "Dispatch", "Anonymongo.Facts_nested_ops": "Dispatch", "Anonymongo.Facts_cmdKeys": "CmdKeys",
+    "Anonymongo.Facts_gate": "Gate", "Anonymongo.Facts_priv": "Priv", "Anonymongo.Facts_wiring": "Wiring",
+    "Anonymongo.Facts_globals": "Globals", "Anonymongo.Facts_writes": "Writes", "Anonymongo.Facts_mapping_write_only": "Mapping",
+    "Anonymongo.Facts_inits": "Inits", "Anonymongo.Facts_footprint": "Footprint", "Anonymongo.Facts_footprint_atlas": "Footprint",
+    "Anonymongo.Facts_atlas_requests": "AtlasReq",
+}
+for _p, _s in PROPS.items():
+    _em = [m for m in _s.get("extra_modules", []) if m != "Anonymongo.Props.SrcFacts"]
+    for _t in _s["theorems"]:
+        if _t in FACT_MODULES:
+            _m = "Anonymongo.Props.Facts." + FACT_MODULES[_t]
+            if _m not in _em:
+                _em.append(_m)
+    _s["extra_modules"] = _em
